@@ -9,6 +9,17 @@ TRUST = ("Trusted base: CPython, Hypothesis, the reference models under lsfverif
          "'held' means held on the cases counted in the evidence file.")
 
 CHECKS = {
+    "C15": dict(
+        category="exploration",
+        technique="property-based testing of generated parent/child launch scenarios and task-token callback streams on the real engine over a simulated broker and virtual clock, against a small expected-result model written from the property text (result shape, completion instant, cancellation, token acceptance)",
+        text=("Hypothesis draws the integration form (startExecution, .sync, .sync:2, aws-sdk:sfn:startSyncExecution, invoke.waitForTaskToken, startExecution.waitForTaskToken), workflow types, child behaviour "
+              "(succeeds, two steps, task error, Fail state, blocked on a Wait / a Task / both inside a nested Parallel), parent shape (plain, Parallel with a failing or succeeding sibling, Map), parent time-out "
+              "shorter or longer than the child, and the delivery schedule; for tokens it draws per attempt a stream of SendTaskSuccess/SendTaskFailure calls with valid, duplicate, earlier-attempt, other-execution, "
+              "truncated, wrong-suffix, three-part, non-base64 and forged tokens and ordinary worker replies. The parent's result fields, the instant and handler step of completion, the absence of child progress after a cut, "
+              "HTTP answers and the final outcome of every execution are compared with the model."),
+        design_ref="DESIGN.md section 5 C15",
+        note="Virtual time advances only when no delivery is enabled; ties between callbacks, deadlines and child ends are not generated. " + TRUST,
+    ),
     "C06": dict(
         category="exploration",
         technique="property-based testing of generated failure assignments x handlers x schedules on structured fan-outs, with the lifecycle / acknowledgement / history monitors after every step plus outcome-set, once-per-attempt and no-sibling-progress oracles from the broker log",
